@@ -1,2 +1,134 @@
-(* C11 - compositing agrees with the published compositing model (placeholder header; theorems below). *)
-From PsdV Require Import Composite.Scalar Composite.Model Composite.Spec Composite.ProofsKernel Composite.ProofsSpec.
+(* C11 - compositing agrees with the published compositing model (Porter-Duff / PDF 1.7 11.3-11.4).
+
+   Model: Composite/Model.v (per-pixel kernel: Compositor state, _apply_source normal + knockout paths,
+   _divide, _clip, finish / backdrop removal, elements with masks x density x fill x opacity, groups
+   isolated / pass-through, clipping runs) and Composite/Doc.v (layer tree, visibility, bounding boxes,
+   viewports, paste) written once over an abstract scalar structure; the theorems below are about its
+   instance over the reals (ROps); the instance over Q runs in the correspondence check and
+   Composite/Transfer.v carries it onto the real instance.  Spec: Composite/Spec.v.
+   Blend functions are arbitrary functions B with 0 <= B b s <= 1 on the unit square ([blend_ok]);
+   [blend_fn_range] shows the twelve modelled modes qualify.  All statements hold for every list length,
+   nesting depth and value in range - no bounds. *)
+From Coq Require Import Reals QArith Qreals List.
+From PsdV Require Import Composite.Scalar Composite.Model Composite.Spec Composite.Geometry Composite.Doc
+  Composite.ProofsKernel Composite.ProofsSpec Composite.ProofsBlend Composite.ProofsLaws Composite.ProofsDoc Composite.Transfer.
+Import ListNotations.
+Open Scope R_scope.
+
+(* group alpha / shape after ANY list of sources:  1 - prod (1 - alpha_i)   (pure algebra, no side condition) *)
+Theorem union_fold (l : list source) iso cb ab :
+  let st := apply_sources l (@init ROps iso cb ab) in
+  ag st = group_alpha (map s_a l) /\ sg st = group_alpha (map s_f l).
+Proof. exact (ProofsSpec.union_fold l iso cb ab). Qed.
+Print Assumptions union_fold.
+
+Theorem total_alpha_fold (l : list source) (st : state ROps) :
+  a st = a0 st + ag st - a0 st * ag st ->
+  a (apply_sources l st) = 1 - (1 - a st) * prod_compl (map s_a l).
+Proof. exact (ProofsSpec.total_alpha_fold l st). Qed.
+Print Assumptions total_alpha_fold.
+
+(* one _apply_source step (normal path) IS the basic compositing formula of PDF 11.3.3 *)
+Theorem step_is_pdf_formula (st : state ROps) cs fs als B :
+  Inv st -> src_ok cs fs als -> blend_ok B ->
+  let st' := @apply_source ROps st cs fs als B false in
+  a st' = pdf_alpha (a st) als /\
+  a st' * c st' = pdf_premult B (c st) (a st) cs als /\
+  (a st' <> 0 -> c st' = pdf_color B (c st) (a st) cs als).
+Proof. exact (ProofsSpec.step_is_pdf_formula st cs fs als B). Qed.
+Print Assumptions step_is_pdf_formula.
+
+(* the hypotheses are satisfiable by a non-trivial state and source *)
+Example step_hypotheses_example :
+  Inv (@init ROps false (1/2) (1/4)) /\ src_ok (1/3) (1/2) (1/4) /\ blend_ok (@blend_fn ROps BMultiply).
+Proof.
+  split; [apply init_Inv; unfold unit; Lra.lra|]. split; [unfold src_ok, unit; Lra.lra | apply blend_fn_range].
+Qed.
+
+(* the invariant (all fields in [0,1], alpha = Union(alpha_0, alpha_g), removal bound, alpha_g <= shape_g)
+   is kept by both paths of _apply_source, and _clip never changes the colour it is applied to *)
+Theorem apply_source_keeps_invariant (st : state ROps) cs fs als B ko :
+  Inv st -> src_ok cs fs als -> blend_ok B -> Inv (@apply_source ROps st cs fs als B ko).
+Proof. exact (apply_source_Inv st cs fs als B ko). Qed.
+Print Assumptions apply_source_keeps_invariant.
+
+Theorem clip_is_identity_normal (st : state ROps) cs fs als B :
+  Inv st -> src_ok cs fs als -> blend_ok B ->
+  let st' := @apply_source ROps st cs fs als B false in
+  a st' <> 0 -> c st' * a st' = num_normal st cs als B.
+Proof. intros I S HB. exact (proj2 (apply_source_normal_Inv st cs fs als B I S HB)). Qed.
+Print Assumptions clip_is_identity_normal.
+
+Theorem clip_is_identity_knockout (st : state ROps) cs fs als B :
+  Inv st -> src_ok cs fs als -> blend_ok B ->
+  let st' := @apply_source ROps st cs fs als B true in
+  a st' <> 0 -> c st' * a st' = num_ko st cs fs als B.
+Proof. intros I S HB. exact (proj2 (apply_source_ko_Inv st cs fs als B I S HB)). Qed.
+Print Assumptions clip_is_identity_knockout.
+
+(* state_in_unit_interval for whole element trees: groups in groups, clipping runs, knockout, masks *)
+Theorem state_in_unit_interval (l : list (elem ROps)) iso cb ab :
+  Forall wf l -> unit cb -> unit ab -> Inv (apply_list l (@init ROps iso cb ab)).
+Proof. intros W Hc Ha. exact (apply_list_Inv l W _ (init_Inv iso cb ab Hc Ha)). Qed.
+Print Assumptions state_in_unit_interval.
+
+(* the backdrop-removal formula of the `color` property yields a colour without the help of _clip,
+   and its premultiplied form is  alpha*C - alpha_0*C_0*(1 - alpha_g)  (PDF 11.4.8) *)
+Theorem removal_needs_no_clip (st : state ROps) : Inv st -> ag st <> 0 ->
+  let C := pdf_removal (c st) (c0 st) (a0 st) (ag st) in
+  unit C /\ @finish_color ROps st = C /\ ag st * C = a st * c st - a0 st * c0 st * (1 - ag st).
+Proof. exact (finish_unclipped st). Qed.
+Print Assumptions removal_needs_no_clip.
+
+(* an isolated group of Normal-mode layers is the Porter-Duff "over" fold on premultiplied colour *)
+Theorem porter_duff (l : list (R * R)) cb ab :
+  unit cb -> unit ab -> Forall (fun p => unit (fst p) /\ unit (snd p)) l ->
+  let '(C, f, al) := @finish ROps (apply_sources (map src_normal l) (@init ROps true cb ab)) in
+  (al * C, al) = pd_stack l.
+Proof. exact (ProofsSpec.porter_duff l cb ab). Qed.
+Print Assumptions porter_duff.
+
+Example porter_duff_example :
+  Forall (fun p : R * R => unit (fst p) /\ unit (snd p)) [(1/5, 1/2); (4/5, 1/4); (1, 0)].
+Proof. repeat constructor; cbn; Lra.lra. Qed.
+
+(* the modelled blend modes meet the range hypothesis *)
+Theorem blend_fn_range (b : blend) : blend_ok (@blend_fn ROps b).
+Proof. exact (ProofsBlend.blend_fn_range b). Qed.
+Print Assumptions blend_fn_range.
+
+(* every well-formed 8-bit document (any tree, any viewport, pixel, channel, backdrop in [0,1]) is sampled
+   into well-formed elements, hence all of the above applies to what the document model evaluates, and its
+   result is a colour, a shape and an alpha in [0,1] *)
+Theorem document_samples_are_wellformed (ls : list layer) vp x y k :
+  Forall layer_ok ls -> Forall wf (@sample_list ROps vp x y k ls).
+Proof. exact (sample_list_wf ls vp x y k). Qed.
+Print Assumptions document_samples_are_wellformed.
+
+Theorem composite_in_range (ls : list layer) vp cb ab x y k :
+  Forall layer_ok ls -> unit cb -> unit ab ->
+  let '(C, f, al) := @composite_doc ROps vp cb ab ls x y k in unit C /\ unit f /\ unit al.
+Proof. exact (composite_doc_in_range ls vp cb ab x y k). Qed.
+Print Assumptions composite_in_range.
+
+Example wellformed_document_example :
+  Forall layer_ok
+    [Px (0, 0, 2, 1)%Z [[51; 204]%Z] [255; 128]%Z (MkAttrs true 255 255 BNormal false None false);
+     Gr true [Px (1, 0, 3, 1)%Z [[10; 20]%Z] [64; 255]%Z
+                (MkAttrs true 128 64 BMultiply false (Some (MkMask (1, 0, 2, 1)%Z [128%Z] 255 (Some 200%Z) false)) false)]
+        (MkAttrs true 200 255 BNormal false None false)].
+Proof. repeat (constructor; unfold is_byte, attrs_ok, mask_ok, bytes_ok; cbn; try Lia.lia); repeat constructor; unfold is_byte; Lia.lia. Qed.
+
+(* the rational instance that vm_compute executes in the correspondence check is, through Q2R, exactly the
+   real instance the theorems above speak about: whole document model, kernel and sampling *)
+Theorem executed_model_is_the_real_model vp (cb ab : Q) ls x y k :
+  let '(C, f, al) := @composite_doc QOps vp cb ab ls x y k in
+  @composite_doc ROps vp (Q2R cb) (Q2R ab) ls x y k = (Q2R C, Q2R f, Q2R al).
+Proof. exact (model_Q_is_model_R vp cb ab ls x y k). Qed.
+Print Assumptions executed_model_is_the_real_model.
+
+(* Not proved here (stated for the record):
+   - viewport_model_eq_spec in its full form "the array machinery equals a whole-plane recursion that never
+     mentions viewports": Properties/C13.v proves the equivalent [viewport_independent] (any two viewports
+     containing the pixel give the same result), which is what makes the model a whole-plane function.
+   - float32 rounding of NumPy: bounded by the tolerance of the correspondence check, not modelled. *)
